@@ -34,6 +34,11 @@ def countWhile (p : Char → Bool) : List Char → Nat
   | [] => 0
   | c :: cs => if p c then 1 + countWhile p cs else 0
 
+/-- `countWhile` for any element type (used for token lists). -/
+def countWhile' {α} (p : α → Bool) : List α → Nat
+  | [] => 0
+  | c :: cs => if p c then 1 + countWhile' p cs else 0
+
 theorem countWhile_le (p : Char → Bool) (s : List Char) : countWhile p s ≤ s.length := by
   induction s with
   | nil => simp [countWhile]
